@@ -59,8 +59,35 @@ def expected(gs):
             elif k == "m": mc += 1; ms += int(a)
             elif k == "g+": g[a] += 1
             elif k == "g-": g[a] -= 1
-    hs = ",".join("%s=%d" % (k, h[k]) for k in sorted(h))
+    hs = ",".join(sorted("%s=%d" % (k, h[k]) for k in h))
     return "urls=%d seeds=%d http=%s mean=%d/%d gauges=pre=%d,arch=%d,post=%d" % (u, s, hs, mc, ms, g["pre"], g["arch"], g["post"])
+
+
+def canon(line):
+    """mean travels as count/sum from the model and as a float from the public getter: compare as floats"""
+    out = []
+    for part in line.split(" "):
+        if part.startswith("mean="):
+            v = part[5:]
+            if "/" in v:
+                c, s_ = v.split("/")
+                v = repr(float(int(s_)) / float(int(c))) if int(c) else "0.0"
+            else:
+                v = repr(float(v))
+            part = "mean=" + v
+        out.append(part)
+    return " ".join(out)
+
+
+def fresh_key_burst(r, goroutines, keys):
+    """every goroutine increments the same brand-new per-status keys in the same order"""
+    tag = "%06x" % r.randrange(1 << 24)
+    return [["h:%s-%d" % (tag, k) for k in range(keys)] for _ in range(goroutines)]
+
+
+def big_sample_burst(r, goroutines, n):
+    """long response times: the summed latency passes 2^32 ms"""
+    return [["m:%d" % r.choice([3000000, 2500000, 1234567]) for _ in range(n)] for _ in range(goroutines)]
 
 
 def run_bursts(ctx, bursts, race=False):
@@ -73,11 +100,12 @@ def run_bursts(ctx, bursts, race=False):
     else:
         impl, model = ctx.pair("stats", lines, timeout=1800)
     for gs, a, b in zip(bursts, impl, model):
+        a, b = canon(a), canon(b)
         big = sum(1 for cs in gs if len(cs) >= 100) >= 4
         ctx.case(json.dumps(gs)[:4000], big)
         ctx.count("bursts")
         ctx.count("calls", sum(len(cs) for cs in gs))
-        want = expected(gs)
+        want = canon(expected(gs))
         if a != b:
             ctx.disagree({"goroutines": [cs[:20] for cs in gs], "note": "workload truncated"}, a, b)
         if a != want:
@@ -90,6 +118,8 @@ def run(ctx):
     n = 120 if ctx.thorough() else 12
     bursts = [gen_burst(r, r.choice([4, 8, 16]), r.choice([200, 1000, 3000])) for _ in range(n)]
     bursts.insert(0, [["u", "s", "h:200", "m:7", "g+:pre"], ["u", "h:200", "g+:pre", "g-:pre", "ur", "ug"]])
+    bursts += [fresh_key_burst(r, 8, 3000) for _ in range(6 if ctx.thorough() else 2)]
+    bursts += [big_sample_burst(r, 8, 400) for _ in range(3 if ctx.thorough() else 1)]
     run_bursts(ctx, bursts)
     if ctx.thorough():
         ok, msg = core.build_harness(race=True)
